@@ -54,12 +54,34 @@ def setup_socket_r(ip, st, fr, case):
     return {'g_pl': fr['g_pl'], 'g_pad': fr['g_pad'], 'g_padbytes': fr['g_padbytes']}
 
 
+def setup_kex_write(ip, st, fr, case):
+    names = ['kex', 'key', 'cenc', 'senc', 'cmac', 'smac', 'ccomp', 'scomp', 'clang', 'slang']
+    g = {}
+    for n in names:
+        g[n] = st.new_symlist(fresh(n, ('list', 'str')).t, 'str')
+    cookie, follows, unused = fresh('cookie', 'bytes'), fresh('follows', 'bool'), fresh('unused', 'int')
+    cli = st.new_obj('SSH2_KexParty', {'_SSH2_KexParty__enc': g['cenc'], '_SSH2_KexParty__mac': g['cmac'],
+                                       '_SSH2_KexParty__compression': g['ccomp'], '_SSH2_KexParty__languages': g['clang']})
+    srv = st.new_obj('SSH2_KexParty', {'_SSH2_KexParty__enc': g['senc'], '_SSH2_KexParty__mac': g['smac'],
+                                       '_SSH2_KexParty__compression': g['scomp'], '_SSH2_KexParty__languages': g['slang']})
+    fr['self'] = st.new_obj('SSH2_Kex', {'_SSH2_Kex__cookie': cookie, '_SSH2_Kex__kex_algs': g['kex'], '_SSH2_Kex__key_algs': g['key'],
+                                         '_SSH2_Kex__client': cli, '_SSH2_Kex__server': srv, '_SSH2_Kex__follows': follows,
+                                         '_SSH2_Kex__unused': unused})
+    data = fresh('wdata', 'bytes')
+    buf = st.new_obj('<BytesIO>', {'data': data, 'pos': mk(z3.Length(data.t), 'int')})
+    fr['wbuf'] = st.new_obj('WriteBuf', {'_wbuf': buf})
+    for n in names:
+        fr['g_' + n] = g[n]
+    fr['g_cookie'], fr['g_follows'], fr['g_unused'] = cookie, follows, unused
+    return {}
+
+
 RB_SETUP = "rb = ReadBuf(g_data); _ = rb.read(g_pos)"
 WB_SETUP = "wb = WriteBuf(); _ = wb.write(g_w)"
 RB_LET = {'D': 'self._buf.data', 'P': 'self._buf.pos'}
 RB_REQ = ["0 <= self._buf.pos and self._buf.pos <= len(self._buf.data) and self._len == len(self._buf.data)"]
 UNREAD = "len(D) - P"
-RB_FRAME = "self._buf.data == D and self._len == len(D)"
+RB_FRAME = "self._buf.data == D and self._len == len(D) and P <= self._buf.pos and self._buf.pos <= len(D)"
 WB_LET = {'W': 'self._wbuf.data'}
 WB_REQ = ["self._wbuf.pos == len(self._wbuf.data)"]
 WB_POS = "self._wbuf.pos == len(self._wbuf.data)"
@@ -130,12 +152,46 @@ def units():
        ensures=["self._wbuf.data == W + enc_bool(v)", WB_POS, "result is self"])
     wb('write_int', params=dict(v='int'), call='wb.write_int(v)', raises={'struct.error': "v < 0 or v > 4294967295"},
        ensures=["self._wbuf.data == W + u32(v)", WB_POS, "result is self"])
-    wb('write_string', params=dict(v='bytes'), call='wb.write_string(v)', raises={'struct.error': "len(v) > 4294967295"},
-       ensures=["self._wbuf.data == W + enc_string(v)", WB_POS, "result is self"])
+    wb('write_string', params=dict(v='bytes'), call='wb.write_string(v)', raises={'struct.error': "len(as_bytes(v)) > 4294967295"},
+       ensures=["self._wbuf.data == W + enc_string(as_bytes(v))", WB_POS, "result is self"])
     U.append(Unit(Contract('WriteBuf.write_flush', setup=setup_writebuf, mode='contract', let=WB_LET, requires=WB_REQ,
                            modifies=['self._wbuf'], result='bytes', raises={},
                            ensures=["result == W", "self._wbuf.data == b''", "self._wbuf.pos == 0"]),
                   harness=dict(imports=IMPORTS, setup=WB_SETUP, call='wb.write_flush()', self='wb')))
+    wb('write_list', params=dict(v='list[str]'), call='wb.write_list(v)',
+       raises={'struct.error': "len(utf8(join(',', v))) > 4294967295"},
+       ensures=["self._wbuf.data == W + enc_namelist(v)", WB_POS, "result is self"])
+    rb('read_list', call='rb.read_list()', raises={'struct.error': UNREAD + " < 4"}, result='list[str]',
+       ensures=["result == dec_namelist(fld(D, P))", "self._buf.pos == nxt(D, P)", RB_FRAME],
+       use=["val_be_word(D[P:P + 4])"])
+    # ------------------------------------------------------------------ KEXINIT (RFC 4253 section 7.1): field order
+    U.append(Unit(Contract(
+        'SSH2_Kex.write', setup=setup_kex_write, let={'W': 'wbuf._wbuf.data'},
+        requires=["wbuf._wbuf.pos == len(wbuf._wbuf.data)"], may_raise={'struct.error': "True"},
+        ensures=["wbuf._wbuf.data == W + g_cookie + enc_namelist(g_kex) + enc_namelist(g_key) + enc_namelist(g_cenc)"
+                 " + enc_namelist(g_senc) + enc_namelist(g_cmac) + enc_namelist(g_smac) + enc_namelist(g_ccomp)"
+                 " + enc_namelist(g_scomp) + enc_namelist(g_clang) + enc_namelist(g_slang) + enc_bool(g_follows) + u32(g_unused)"]),
+        harness=None))
+    U.append(Unit(Contract(
+        'SSH2_Kex.parse', params=dict(payload='bytes', outputbuffer='const:None'), may_raise={'struct.error': "True"},
+        opaque=('fld', 'nxt'),
+        let={'P1': '16', 'P2': 'nxt(payload, P1)', 'P3': 'nxt(payload, P2)', 'P4': 'nxt(payload, P3)', 'P5': 'nxt(payload, P4)',
+             'P6': 'nxt(payload, P5)', 'P7': 'nxt(payload, P6)', 'P8': 'nxt(payload, P7)', 'P9': 'nxt(payload, P8)',
+             'P10': 'nxt(payload, P9)', 'P11': 'nxt(payload, P10)'},
+        ensures=["result.cookie == payload[0:16]",
+                 "result.kex_algorithms == dec_namelist(fld(payload, P1))",
+                 "result.key_algorithms == dec_namelist(fld(payload, P2))",
+                 "result.client.encryption == dec_namelist(fld(payload, P3))",
+                 "result.server.encryption == dec_namelist(fld(payload, P4))",
+                 "result.client.mac == dec_namelist(fld(payload, P5))",
+                 "result.server.mac == dec_namelist(fld(payload, P6))",
+                 "result.client.compression == dec_namelist(fld(payload, P7))",
+                 "result.server.compression == dec_namelist(fld(payload, P8))",
+                 "result.client.languages == dec_namelist(fld(payload, P9))",
+                 "result.server.languages == dec_namelist(fld(payload, P10))",
+                 "result.follows == (payload[P11] != 0)",
+                 "result.unused == val_be(payload[P11 + 1:P11 + 5])"]),
+        harness=None))
     # ------------------------------------------------------------------ RFC 4253 section 6 framing
     U.append(Unit(Contract(
         'SSH_Socket.send_packet', setup=setup_socket_w, let={'PAY': 'self._wbuf.data'},
@@ -147,7 +203,11 @@ def units():
                  "ghost('sent')[0][4] >= 4 and ghost('sent')[0][4] <= 255",                   # at least four bytes of padding
                  "len(ghost('sent')[0]) == 4 + 1 + len(PAY) + ghost('sent')[0][4]",           # consistent length fields
                  "ghost('sent')[0][5:5 + len(PAY)] == PAY",                                   # payload unchanged
-                 "self._wbuf.data == b''"]),
+                 "self._wbuf.data == b''"],
+        cuts={"data = struct.pack('>Ib', plen, padding) + payload + pad_bytes":
+              ["4 <= padding and padding <= 11", "len(pad_bytes) == padding", "payload == PAY", "plen == len(PAY) + padding + 1"],
+              "return self.send(data)":
+              ["len(data) == 5 + len(PAY) + padding", "data[4] == padding", "data[0:4] == u32(plen)", "data[5:5 + len(PAY)] == PAY"]}),
         harness=None))
     U.append(Unit(Contract(
         'SSH_Socket.read_packet', setup=setup_socket_r, cases=[dict(sshv=2)], let=RB_LET,
